@@ -1,16 +1,16 @@
 #!/usr/bin/env python3
 """Regenerates the seed tables of DESIGN.md §9 (between the markers) from /verif/seeded/*/meta.json."""
 import json, glob, os, re
-rows1, rows2, rows3, rows4, rows5, rows6, rows7, rows8, rows9, rows10 = [], [], [], [], [], [], [], [], [], []
+rows1, rows2, rows3, rows4, rows5, rows6, rows7, rows8, rows9, rows10, rows11 = [], [], [], [], [], [], [], [], [], [], []
 for d in sorted(glob.glob('/verif/seeded/*')):
     m = json.load(open(d + '/meta.json'))
     n = os.path.basename(d)
     det = m.get('detection') == 'DETECTED'
     by = ('`' + (m.get('detected_by') or '') + '`') if det else '**missed**'
-    if '-r2m' in n or '-r3m' in n or '-r4m' in n or '-r5m' in n or '-r6m' in n or '-r7m' in n or '-r8m' in n or '-r9m' in n or '-r10m' in n:
+    if '-r2m' in n or '-r3m' in n or '-r4m' in n or '-r5m' in n or '-r6m' in n or '-r7m' in n or '-r8m' in n or '-r9m' in n or '-r10m' in n or '-r11m' in n:
         fs = m.get('first_sweep', '')
         first = 'detected' if fs.startswith('DETECTED') else 'missed'
-        (rows2 if '-r2m' in n else rows3 if '-r3m' in n else rows4 if '-r4m' in n else rows5 if '-r5m' in n else rows6 if '-r6m' in n else rows7 if '-r7m' in n else rows8 if '-r8m' in n else rows9 if '-r9m' in n else rows10).append(f"| {n} | {m.get('what','')} | {first} | {by} | {m.get('history','')} |")
+        (rows2 if '-r2m' in n else rows3 if '-r3m' in n else rows4 if '-r4m' in n else rows5 if '-r5m' in n else rows6 if '-r6m' in n else rows7 if '-r7m' in n else rows8 if '-r8m' in n else rows9 if '-r9m' in n else rows10 if '-r10m' in n else rows11).append(f"| {n} | {m.get('what','')} | {first} | {by} | {m.get('history','')} |")
     else:
         rows1.append(f"| {n} | {m.get('what','')} | {by} | {m.get('history','')} |")
 def count(rows, col):
@@ -43,6 +43,9 @@ n9first = sum(1 for r in rows9 if r.split('|')[3].strip() == 'detected')
 t10 = "| seed | what the change does | first sweep | caught by (now) | history |\n|---|---|---|---|---|\n" + "\n".join(rows10)
 n10d = count(rows10, 4)
 n10first = sum(1 for r in rows10 if r.split('|')[3].strip() == 'detected')
+t11 = "| seed | what the change does | first sweep | caught by (now) | history |\n|---|---|---|---|---|\n" + "\n".join(rows11)
+n11d = count(rows11, 4)
+n11first = sum(1 for r in rows11 if r.split('|')[3].strip() == 'detected')
 s = open('/verif/DESIGN.md').read()
 a = s.index('<!-- SEEDS:BEGIN -->'); b = s.index('<!-- SEEDS:END -->')
 body = f"""<!-- SEEDS:BEGIN -->
@@ -149,6 +152,18 @@ existing rule (one of them re-introduced the defect of finding 108, an hour afte
 is of the kind section 7 declares out of reach (counter arithmetic).
 
 {t10}
+
+### Round 11 ({len(rows11)} confirmed seeds; {n11first} detected by the first sweep, {n11d} detected now, {len(rows11)-n11d} missed)
+
+Round 11 (the ten properties of round 9 again, in the last two and a half hours) is the first round in which the first
+sweep caught about half of what was delivered: eight of seventeen, and two more met a rule that was registered for the
+sibling property only. Four of the eight re-introduced a defect repaired earlier in the build (findings 49, 54, 90 and
+the shortcut of 50/51) - the agents were told of earlier *mutations*, not of the repairs. The C06 agent delivered
+nothing that survives the existing suite; the C03 agent one mutation. The round's defect reports changed one verdict:
+the C07 agent showed that the non-canonical transaction encodings of finding 3 - a known finding since the first day -
+stop block production, and the defect was repaired (`08e651e`).
+
+{t11}
 
 """
 s = s[:a] + body + s[b:]
